@@ -87,6 +87,18 @@ def dynamic_verdict(case):
     mod, parts = case["module"], case["short"].split(".")
     before = {k: observe.snap(v) for k, v in args.items()}
     kw = dict(args)
+    try:
+        res = _invoke(case, mod, parts, kw)
+        if hasattr(res, "__next__") and hasattr(res, "send"):  # a generator: its body runs when iterated
+            res = list(res)
+    except Exception:  # the call may fail: what it did to its arguments before that counts
+        res = None
+    changed = sorted(k for k in args if observe.snap(args[k]) != before[k])
+    aliased = sorted(k for k, v in args.items() if res is not None and observe.shares(res, v))
+    return changed, aliased
+
+
+def _invoke(case, mod, parts, kw):
     if case["kind"] == "constructor":
         res = getattr(mod, parts[0])(**kw)
     elif case["kind"] == "method":
@@ -101,9 +113,7 @@ def dynamic_verdict(case):
             res = getattr(kw.pop("self"), parts[1])(**kw)
     else:
         res = getattr(mod, parts[0])(**kw)
-    changed = sorted(k for k in args if observe.snap(args[k]) != before[k])
-    aliased = sorted(k for k, v in args.items() if res is not None and observe.shares(res, v))
-    return changed, aliased
+    return res
 
 
 # the translator's own fail-closed check of its output: IR fragments and the variable that must be found possibly unbound
